@@ -345,7 +345,7 @@ def _save_ctrlpts2d_file(ctrlpts2d, size_u, size_v, file_out):
                         if idx:  # Add comma if we are not on the first element
                             line += ","
                         line += str(coord)
-                    if j != size_u - 1:
+                    if j != size_v - 1:
                         line += ";"
                     else:
                         line += "\n"
